@@ -38,6 +38,12 @@ class _PlanSelf:
     def restore_metadata(self, path, metadata):
         self.meta_calls.append((path, metadata))
 
+    def __getattr__(self, name):
+        # helpers the statements may call on `self` (today none besides the two above) are the real ones
+        import types
+        attr = getattr(Repository, name)
+        return types.MethodType(attr, self) if callable(attr) else attr
+
 
 def _is_sort(s):
     import ast
@@ -120,9 +126,10 @@ def _cols(mode, allcols, default_idx, subset_idx):
     return [allcols[i] for i in subset_idx], subset_idx
 
 
-def listing_case(h0, h1, h2, sf, ff, header, colmode='all'):
+def listing_case(h0, h1, h2, sf, ff, header, colmode='all', clock='plain'):
     rt.determinism(31)
-    with world.scratch('c15') as d:
+    import contextlib
+    with (rt.dst_night() if clock == 'dst' else contextlib.nullcontext()), world.scratch('c15') as d:
         U_ = users(True)
         be = rt.MemBackend({'config': U_.config})
         src = d / 'src'
@@ -259,8 +266,10 @@ def e_listing(k: int) -> bool:
     h0, h1, h2, sf, ff, header = digits(k, [9, 9, 5, 5, 5, 2])
     with NoTracing():
         cm = (h0 + h1 + h2 + sf + ff) % 3        # column selection rotates with the other digits
-        ok, msg = listing_case(h0, h1, [4, 0, 8, 'only-empty', 'procfs'][h2], sf, ff, header, COLMODES[cm])
-        tick('e_listing', [h0, h1, h2, SFILT[sf], FFILT[ff], header, COLMODES[cm]])
+        # every 4th vector: a daylight-saving zone and snapshots 30 minutes apart in the night the clocks go forward
+        clock = 'dst' if (h0 + 2 * h1 + sf + header) % 4 == 0 else 'plain'
+        ok, msg = listing_case(h0, h1, [4, 0, 8, 'only-empty', 'procfs'][h2], sf, ff, header, COLMODES[cm], clock)
+        tick('e_listing', [h0, h1, h2, SFILT[sf], FFILT[ff], header, COLMODES[cm], clock])
         if not ok:
             _say(h0, h1, h2, SFILT[sf], FFILT[ff], header, msg)
         return ok
